@@ -61,6 +61,12 @@ CLAIMED = {
                 "token is absent; constructor as base case - covers histories of any length up to the limit bound. Owner objects (move, overwrite, destroy, "
                 "unregister) on the real container: all histories up to the depth bound against a reference model; stale-token lookups abort.",
             "limit<=12 quick / 40 thorough; 8-bit tokens; owner histories depth 3/4.", "DESIGN.md 4/C15"),
+    "C13": (MC, "noop backend: every history up to the depth bound over 21 concrete ownership operations (register f_i into o_j, unregister, move-assign onto "
+                "empty/live owners, move-construct+destroy) on 3 functions x 3 owners, run in lock-step with a reference model written from the property text: "
+                "abort exactly on duplicate registration, is_unregistered() per owner after every step, and at the end exactly the live owners' functions are "
+                "reachable through their entry points; 65 registrations on the 64-entry table are refused; slot reuse (first/middle/last) works; owner "
+                "operations after destroy_sandbox are harmless.",
+            "The symbolic input is the operation sequence; depth 3 (quick) / 4 (thorough).", "DESIGN.md 4/C13"),
     "C05": (MC, "p+n, p-n, +=, -=, ++/-- (pre/post), p[n], &p[n] for 8 pointee types x integer index types (plain, tainted, tainted_volatile) on LP32/LP16 "
                 "model backends with symbolic region base, pointer and full-width index: returns iff the exact 128-bit address p+/-n*s_guest is inside "
                 "the region and then returns exactly it, else aborts; null aborts.",
